@@ -121,7 +121,9 @@ func lemmaHpackIntTruncated(n byte, i uint64, cut int) (ok bool) {
 //@   requires d != nil && len(d.buf) >= 1
 //@   ensures  err == errNeedMore ==> unchanged(d.buf) && unchanged(d.dynTab.size) && unchanged(d.dynTab.maxSize)
 //@   ensures  err == nil ==> samebase(d.buf, old(d.buf)) && startoff(d.buf) > startoff(old(d.buf)) && endoff(d.buf) == endoff(old(d.buf))
-//@   assert at call setMaxSize: uint64($v) <= uint64(d.dynTab.allowedMaxSize)
+//@   ghost decoded += $r0 after call readVarInt
+//@   assert at call setMaxSize: uint64($v) == ghost(decoded) && ghost(decoded) <= uint64(d.dynTab.allowedMaxSize)
+//@   ensures  err == nil ==> ghost(decoded) <= uint64(old(d.dynTab.allowedMaxSize))
 //@   noframe
 //@
 //@ func (*Decoder).parseHeaderFieldRepr(d) (err)
